@@ -34,6 +34,8 @@ def pa(e):
         return f"(invmx {pa(e[1])})"
     if t == "emul":
         raise Untranslatable("elementwise `*` between arrays (numpy broadcasting) is not a matrix product")
+    if t == "half":
+        return f"(2%:R^-1 *: {pa(e[1])})"
     if t == "idx00":
         return f"(({pa(e[1])}) 0 0)"
     raise Untranslatable(f"IR {t}")
@@ -56,6 +58,8 @@ def pb(e):
         return f"(linv {pb(e[1])})"
     if t == "emul":
         raise Untranslatable("elementwise `*` between arrays (numpy broadcasting) is not a matrix product")
+    if t == "half":
+        return f"(lscale (1 # 2)%Q {pb(e[1])})"
     if t == "idx00":
         return f"(l00 {pb(e[1])})"
     raise Untranslatable(f"IR {t}")
@@ -81,6 +85,8 @@ def pymat(e, names):
         if isinstance(e.func, ast.Attribute) and e.func.attr == "transpose" and not e.args:
             return ("tr", pymat(e.func.value, names))
         fail(e, "call in matrix expression")
+    if isinstance(e, ast.BinOp) and isinstance(e.op, ast.Div) and isinstance(e.right, ast.Constant) and e.right.value in (2, 2.0):
+        return ("half", pymat(e.left, names))
     if isinstance(e, ast.BinOp):
         a, b = pymat(e.left, names), pymat(e.right, names)
         if isinstance(e.op, ast.MatMult):
@@ -232,8 +238,14 @@ class CParser:
 
     def term(self):
         a = self.postfix()
-        while self.peek() == ("op", "*"):
-            self.eat()
+        while self.peek() in (("op", "*"), ("op", "/")):
+            op = self.eat()[1]
+            if op == "/":
+                k = self.eat()
+                if k not in (("num", "2.0"), ("num", "2"), ("num", "2.")):
+                    raise Untranslatable(f"C++ parse: division by {k}")
+                a = ("half", a)
+                continue
             b = self.postfix()
             a = ("mul", a, b)   # left associative, as C++
         return a
@@ -582,6 +594,7 @@ def main(repo, outdir):
             m = re.match(r"^(next_state|next_covariance)\.data = (.*)$", s)
             if m:
                 cur.append(("let", m.group(1) + "_data", cexpr(m.group(2), cn)))
+                cn[m.group(1) + ".data"] = m.group(1) + "_data"
                 continue
             if s == "return StateAndVariance{.state = next_state, .covariance = next_covariance}":
                 cret = ("next_state_data", "next_covariance_data")
